@@ -10,7 +10,7 @@ open Lean Pywbem.Proto Pywbem.Model.Assoc
             "ac":s|null,"rc":s|null,"role":s|null,"rrole":s|null}
           | {"op":"create","ns":s,"inst":{cls,path,props}}
           | {"op":"modify","ns":s,"path":P,"chg":[{"name":s,"ref":bool,"v":P|null}]}
-          | {"op":"delete","ns":s,"path":P} ]}
+          | {"op":"delete","ns":s,"path":P} | {"op":"delclass","ns":s,"cls":s} ]}
   with P = {"c":s,"n":s|null,"h":s|null,"k":nat}; strings as JSON strings or code point arrays.
   Output: {"outs":[{"ok":[P…]} | {"ok":[[s,s]…]} | {"ok":[s…]} | {"exc":…}],
            "repo":[{"name":s,"paths":[P…],"insts":[{"path":P,"cls":s,"refs":[[s,P|null]…]}]}]}
@@ -86,6 +86,10 @@ def step (sv : Server) (j : Json) : Server × Json :=
     match modifyAssoc sv ns ((parsePath (getField j "path")).getD default) ((getArr j "chg").map parseIProp) with
     | .error e => (sv, excJson e)
     | .ok sv' => (sv', Json.mkObj [("ok", Json.null)])
+  | some "delclass" =>
+    match deleteClassAssoc sv ns ((getChars j "cls").getD []) with
+    | .error e => (sv, excJson e)
+    | .ok sv' => (sv', Json.mkObj [("ok", Json.null)])
   | some "delete" =>
     match deleteAssoc sv ns ((parsePath (getField j "path")).getD default) with
     | .error e => (sv, excJson e)
@@ -117,6 +121,7 @@ def parseWOp (j : Json) : Option WOp :=
   | some "create" => some (.create ns (parseInst (getField j "inst")))
   | some "modify" => some (.modify ns ((parsePath (getField j "path")).getD default) ((getArr j "chg").map parseIProp))
   | some "delete" => some (.delete ns ((parsePath (getField j "path")).getD default))
+  | some "delclass" => some (.deleteClass ns ((getChars j "cls").getD []))
   | _ => none
 
 def handle (j : Json) : Json :=
@@ -132,6 +137,7 @@ def handle (j : Json) : Json :=
   Json.mkObj (wstat ++ [("outs", Json.arr outs.reverse.toArray),
               ("repo", Json.arr (sv.repo.map (fun S => Json.mkObj [("name", str S.name),
                 ("paths", Json.arr (S.insts.map (fun i => pathToJson i.path)).toArray),
+                ("classes", Json.arr (S.classes.map (fun c => str c.name)).toArray),
                 ("insts", Json.arr (S.insts.map (fun i => Json.mkObj [("path", pathToJson i.path), ("cls", str i.cls),
                   ("refs", Json.arr ((i.props.filter (·.isRef)).map (fun p =>
                     Json.arr #[str p.name, optToJson pathToJson p.value])).toArray)])).toArray)])).toArray)])
